@@ -17,13 +17,21 @@ coq/theories/Life/ContSyntax.v:
   * calls of translated methods (`await self.disable()`, `await self._continuous.close()`, ...) and the awaits of
     `Imp` (`aopen/aclose/run/wait`), whose duration and outcome belong to the environment.
 
-Ignored (untracked): docstrings, comments, `pass`, logging, type annotations, the assignments
-`self._nextline = nextline`, `self._continuous = continuous`, `started = started or asyncio.Event()`,
-read-only accessors (`enabled`, `subscribe_enabled`, `continuous_enabled`, ...).
+Ignored (the shared rule for ignored positions): docstrings, comments, `pass`, `logger = getLogger(__name__)`,
+`logger.<level>(...)` whose arguments contain no call / walrus / await / yield / lambda and mention no `self`, `context`
+or tracked local; type annotations.  PINNED by their exact text (ast.unparse): `self._nextline = nextline`,
+`self._continuous = continuous`, `started = started or asyncio.Event()`; the statements of `Nextline.__init__`
+other than the tracked assignments; the bodies and decorators of `Nextline.register / unregister / continuous_enabled /
+subscribe_continuous_enabled / __aenter__ / __aexit__`.  The accessors `Continuous.enabled` (a property) and
+`subscribe_enabled` and `Continuous.__aenter__/__aexit__` are translated like every other method.
 
-Fail closed: any other statement, expression, decorator, handler class, extra method of the two classes, or
-any other mention of `_continuous` / `_started` / `_closed` in `Nextline` raises SkelError, which `./check C16`
-reports as a broken tie obligation.
+Fail closed: any other statement (asserts included), expression, decorator, default argument value, *args/**kwargs,
+handler class, extra method or class-level statement of the two classes, class bases/decorators (`Continue`,
+`Continuous`, `Nextline`), any other module-level statement of continuous.py or main.py (re-binding or monkeypatching
+a translated name included), `__eq__/__hash__/__bool__/__len__/__enter__/__exit__/__post_init__/__getattr__/...` in
+`Nextline`, any other mention of `_continuous` / `_started` / `_closed` or store to a translated method name /
+setattr / __dict__ in a method of `Nextline`: all raise SkelError, which `./check C16` reports as a broken tie
+obligation.
 """
 from __future__ import annotations
 
@@ -123,6 +131,8 @@ ASSIGNS = {
     },
 }
 IGNORED_STMTS = {'logger = getLogger(__name__)', 'pass'}
+LOG_LEVELS = {'debug', 'info', 'warning', 'error', 'exception', 'critical'}
+TRACKED_NAMES = {'self', 'context', 'event', 'plugin', 'token', 'stack', 'started', 'nextline', 'continuous', '_REQUESTING'}
 
 
 class Tr:
@@ -196,6 +206,16 @@ class Tr:
     def body(self, stmts) -> str:
         return seq([self.stmt(s) for s in strip_doc(stmts)])
 
+    def stmt_is_logging(self, st) -> bool:
+        """`logger = getLogger(__name__)` or a logging call whose arguments have no effect and mention no parameter
+        other than by formatting plain names that are not tracked"""
+        if norm(st) in IGNORED_STMTS:
+            return True
+        if isinstance(st, ast.Expr) and isinstance(st.value, ast.Call) and isinstance(st.value.func, ast.Attribute) \
+                and isinstance(st.value.func.value, ast.Name) and st.value.func.value.id == 'logger':
+            return self.stmt(st) is None
+        return False
+
     def stmt(self, st) -> str | None:
         s = norm(st)
         if s in IGNORED_STMTS:
@@ -203,10 +223,16 @@ class Tr:
         if isinstance(st, ast.Expr) and isinstance(st.value, ast.Constant) and isinstance(st.value.value, str):
             return None                                         # a stray string literal
         if isinstance(st, ast.Expr) and isinstance(st.value, ast.Call) and isinstance(st.value.func, ast.Attribute) \
-                and isinstance(st.value.func.value, ast.Name) and st.value.func.value.id == 'logger':
-            for n in ast.walk(st):
-                if isinstance(n, (ast.Await, ast.Yield, ast.NamedExpr)):
-                    self.err(st, 'logging call with an effect')
+                and isinstance(st.value.func.value, ast.Name) and st.value.func.value.id == 'logger' \
+                and st.value.func.attr in LOG_LEVELS:
+            # the shared rule for ignored positions: the arguments contain no call, walrus, await, yield, lambda and
+            # do not mention self / context / a tracked local or parameter
+            for a in list(st.value.args) + [k.value for k in st.value.keywords]:
+                for n in ast.walk(a):
+                    if isinstance(n, (ast.Call, ast.Await, ast.Yield, ast.YieldFrom, ast.NamedExpr, ast.Lambda)):
+                        self.err(st, f'logging call whose argument contains `{norm(n)}`')
+                    if isinstance(n, ast.Name) and n.id in TRACKED_NAMES:
+                        self.err(st, f'logging call whose argument mentions `{n.id}`')
             return None
         if isinstance(st, ast.If):
             return f'(If {self.bexpr(st.test)}\n {self.body(st.body)}\n {self.body(st.orelse)})'
@@ -240,6 +266,10 @@ class Tr:
         if isinstance(st, ast.Return):
             if st.value is None or norm(st.value) == 'self':
                 return 'Return'
+            if self.cls == 'Continuous' and norm(st.value) == 'self._pubsub_enabled.latest()':
+                return 'ReturnLatest'
+            if self.cls == 'Continuous' and norm(st.value) == 'self._pubsub_enabled.subscribe()':
+                return 'ReturnSubscribe'
             self.err(st, f'`{s}` not recognised')
         if isinstance(st, ast.Raise):
             if st.exc is None and st.cause is None:
@@ -318,22 +348,6 @@ def count_yields(fn) -> int:
     return sum(isinstance(n, (ast.Yield, ast.YieldFrom)) for n in ast.walk(fn))
 
 
-TRACKED_WORDS = ('_n_requests', '_closed', '_run_started', '_REQUESTING', 'publish', 'aclose', 'register', 'unregister',
-                 'disable', '_requested')
-
-
-def check_readonly(fn, where: str) -> None:
-    """an accessor that is not translated: it must not write or call anything tracked"""
-    for n in ast.walk(fn):
-        if isinstance(n, (ast.Assign, ast.AugAssign, ast.AnnAssign, ast.Await, ast.Yield, ast.YieldFrom, ast.Delete,
-                          ast.NamedExpr, ast.Global, ast.Nonlocal)):
-            raise SkelError(f'{where}: `{norm(n)}` in a method expected to be read-only')
-        if isinstance(n, ast.Attribute) and n.attr in TRACKED_WORDS:
-            raise SkelError(f'{where}: touches `{n.attr}`')
-        if isinstance(n, ast.Name) and n.id in TRACKED_WORDS:
-            raise SkelError(f'{where}: touches `{n.id}`')
-
-
 # (class, python name) -> (Coq name, meth constructor, async?, decorators, arguments)
 CONTINUOUS = [
     ('__init__', 'continuous_init', 'MInit', False, [], ['self', 'nextline']),
@@ -343,7 +357,15 @@ CONTINUOUS = [
     ('run_continue_and_wait', 'continuous_run_continue_and_wait', 'MRunContinueAndWait', True, [], ['self', 'started']),
     ('_requested', 'continuous_requested', 'MRequested', True, ['asynccontextmanager'], ['self']),
     ('disable', 'continuous_disable', 'MDisable', True, [], ['self']),
+    ('__aenter__', 'continuous_aenter', 'MAenter', True, [], ['self']),
+    ('__aexit__', 'continuous_aexit', 'MAexit', True, [], ['self']),
+    ('enabled', 'continuous_enabled', 'MEnabled', False, ['property'], ['self']),
+    ('subscribe_enabled', 'continuous_subscribe_enabled', 'MSubscribeEnabled', False, [], ['self']),
 ]
+# methods that may take *args / **kwargs (ignored by their bodies)
+VARARGS_OK = {('Continuous', '__aexit__'): ('_', '__')}
+# the only default argument value among the translated methods
+DEFAULTS_OK = {('Nextline', 'run_continue_and_wait'): ['None']}
 CONTINUE = [
     ('__init__', 'continue_init', 'MCInit', False, [], ['self', 'continuous']),
     ('on_start_run', 'continue_on_start_run', 'MOnStartRun', True, ['hookimpl'], ['self']),
@@ -358,15 +380,45 @@ NEXTLINE = [
     ('run_and_continue', 'nextline_run_and_continue', 'MNlRunAndContinue', True, [], ['self']),
     ('run_continue_and_wait', 'nextline_run_continue_and_wait', 'MNlRunContinueAndWait', True, [], ['self', 'started']),
 ]
-CONTINUOUS_READONLY = {'enabled', 'subscribe_enabled'}
-CONTINUOUS_WRAPPERS = {'__aenter__', '__aexit__'}        # translated (fail closed) but not used by Nextline: not emitted
 NEXTLINE_PINNED = {
     'register': 'return self._imp.register(plugin)',
     'unregister': 'return self._imp.unregister(plugin=plugin, name=name)',
     'continuous_enabled': 'return self._continuous.enabled',
     'subscribe_continuous_enabled': 'return self._continuous.subscribe_enabled()',
 }
+NEXTLINE_PINNED_DECOS = {'continuous_enabled': ['property']}
+NEXTLINE_PINNED.update({
+    '__aenter__': 'await self.start()\nreturn self',
+    '__aexit__': 'await asyncio.wait_for(self.close(), timeout=self._timeout_on_exit)',
+})
 NEXTLINE_WORDS = ('_continuous', '_started', '_closed')
+# statements of Nextline.__init__ besides the tracked ones (pins: compared after ast.unparse)
+NEXTLINE_INIT_PINNED = {
+    'self._init_options = InitOptions(statement=statement, run_no_start_from=run_no_start_from, '
+    'trace_threads=trace_threads, trace_modules=trace_modules)',
+    'self._timeout_on_exit = timeout_on_exit',
+    'self._imp = Imp(nextline=self, init_options=self._init_options)',
+}
+FORBIDDEN_DUNDERS = {'__enter__', '__exit__', '__bool__', '__len__', '__eq__', '__hash__', '__post_init__', '__getattr__',
+                     '__getattribute__', '__setattr__', '__init_subclass__', '__new__'}
+TRANSLATED_NAMES = {'Nextline', 'Continuous', 'Continue', '_REQUESTING'}
+
+
+def check_main_module(mtree) -> None:
+    """module level of main.py: imports, docstring, the class; nothing may rebind or monkeypatch a translated name"""
+    for n in mtree.body:
+        if isinstance(n, (ast.Import, ast.ImportFrom)):
+            for a in n.names:
+                if (a.asname or a.name.split('.')[0]) in TRANSLATED_NAMES and not \
+                        (isinstance(n, ast.ImportFrom) and n.module == 'continuous' and n.level == 1 and a.name == 'Continuous'
+                         and a.asname is None):
+                    raise SkelError(f'{SRC_MAIN}:{n.lineno}: import rebinding `{a.asname or a.name}`')
+            continue
+        if isinstance(n, ast.Expr) and isinstance(n.value, ast.Constant) and isinstance(n.value.value, str):
+            continue
+        if isinstance(n, ast.ClassDef) and n.name == 'Nextline':
+            continue
+        raise SkelError(f'{SRC_MAIN}:{n.lineno}: module-level statement `{norm(n).splitlines()[0]}` not recognised')
 
 
 def translate_methods(cls_node, cls_name: str, table, src: str) -> list[tuple[str, str, str]]:
@@ -381,8 +433,12 @@ def translate_methods(cls_node, cls_name: str, table, src: str) -> list[tuple[st
             raise SkelError(f'{where}: expected {"async def" if is_async else "def"}')
         if decorators(fn) != decos:
             raise SkelError(f'{where}: decorators {decorators(fn)}, expected {decos}')
-        if argnames(fn) != args or fn.args.vararg or fn.args.kwarg:
-            raise SkelError(f'{where}: arguments {argnames(fn)}, expected {args}')
+        va = (fn.args.vararg.arg if fn.args.vararg else None, fn.args.kwarg.arg if fn.args.kwarg else None)
+        if argnames(fn) != args or va != VARARGS_OK.get((cls_name, py), (None, None)):
+            raise SkelError(f'{where}: arguments {argnames(fn)} {va}, expected {args}')
+        dfl = [norm(d) for d in fn.args.defaults + [d for d in fn.args.kw_defaults if d is not None]]
+        if dfl != DEFAULTS_OK.get((cls_name, py), []):
+            raise SkelError(f'{where}: default argument values {dfl}')
         ny = count_yields(fn)
         if ny != (1 if 'asynccontextmanager' in decos else 0):
             raise SkelError(f'{where}: {ny} yield expression(s)')
@@ -424,14 +480,10 @@ def skeleton(repo: Path) -> list[tuple[str, str, str]]:
     # ---- Continuous
     cont = find_class(tree, 'Continuous')
     res += translate_methods(cont, 'Continuous', CONTINUOUS, SRC)
-    known = {t[0] for t in CONTINUOUS} | CONTINUOUS_READONLY | CONTINUOUS_WRAPPERS
+    known = {t[0] for t in CONTINUOUS}
     for name, fn in methods(cont).items():
         if name not in known:
             raise SkelError(f'{SRC}: Continuous.{name}: method not modelled')
-        if name in CONTINUOUS_READONLY:
-            check_readonly(fn, f'{SRC}:Continuous.{name}')
-        if name in CONTINUOUS_WRAPPERS:
-            Tr('Continuous', f'{SRC}:Continuous.{name}').body(fn.body)
     for n in cont.body:
         if not isinstance(n, (ast.FunctionDef, ast.AsyncFunctionDef)) and not \
                 (isinstance(n, ast.Expr) and isinstance(n.value, ast.Constant)):
@@ -448,7 +500,20 @@ def skeleton(repo: Path) -> list[tuple[str, str, str]]:
             raise SkelError(f'{SRC}: Continue: class-level statement `{norm(n).splitlines()[0]}`')
     # ---- Nextline (main.py)
     mtree = ast.parse(pm.read_text())
+    check_main_module(mtree)
     nl = find_class(mtree, 'Nextline')
+    if nl.bases or nl.keywords or nl.decorator_list:
+        raise SkelError(f'{SRC_MAIN}: class Nextline with bases/decorators')
+    for n in nl.body:
+        if isinstance(n, (ast.FunctionDef, ast.AsyncFunctionDef)):
+            if n.name in FORBIDDEN_DUNDERS:
+                raise SkelError(f'{SRC_MAIN}: Nextline.{n.name}: not modelled')
+            continue
+        if isinstance(n, ast.Expr) and isinstance(n.value, ast.Constant) and isinstance(n.value.value, str):
+            continue
+        if isinstance(n, ast.AnnAssign) and n.value is None:
+            continue
+        raise SkelError(f'{SRC_MAIN}: Nextline: class-level statement `{norm(n).splitlines()[0]}`')
     res += translate_methods(nl, 'Nextline', NEXTLINE, SRC_MAIN)
     nms = methods(nl)
     # __init__: the tracked assignments only; nothing else there may mention the tracked attributes
@@ -466,9 +531,11 @@ def skeleton(repo: Path) -> list[tuple[str, str, str]]:
                 (is_self_attr(st.targets[0], '_started') or is_self_attr(st.targets[0], '_closed')):
             init_items.append(tr.stmt(st))
             continue
-        for n in ast.walk(st):
-            if isinstance(n, ast.Attribute) and n.attr in NEXTLINE_WORDS:
-                raise SkelError(f'{SRC_MAIN}:Nextline.__init__:{st.lineno}: `{s.splitlines()[0]}` touches `{n.attr}`')
+        if s in NEXTLINE_INIT_PINNED:
+            continue
+        if tr.stmt_is_logging(st):
+            continue
+        raise SkelError(f'{SRC_MAIN}:Nextline.__init__:{st.lineno}: statement `{s.splitlines()[0]}` not recognised')
     if n_cont != 1:
         raise SkelError(f'{SRC_MAIN}: Nextline.__init__: expected exactly one `self._continuous = Continuous(self)`')
     res.append(('nextline_init', 'MNlInit', seq(init_items)))
@@ -477,13 +544,21 @@ def skeleton(repo: Path) -> list[tuple[str, str, str]]:
         if name in translated:
             continue
         if name in NEXTLINE_PINNED:
-            b = [norm(x) for x in strip_doc(fn.body)]
-            if b != [NEXTLINE_PINNED[name]]:
-                raise SkelError(f'{SRC_MAIN}: Nextline.{name}: body {b}, expected [{NEXTLINE_PINNED[name]!r}]')
+            b = '\n'.join(norm(x) for x in strip_doc(fn.body))
+            if b != NEXTLINE_PINNED[name]:
+                raise SkelError(f'{SRC_MAIN}: Nextline.{name}: body {b!r}, expected {NEXTLINE_PINNED[name]!r}')
+            if decorators(fn) != NEXTLINE_PINNED_DECOS.get(name, []):
+                raise SkelError(f'{SRC_MAIN}: Nextline.{name}: decorators {decorators(fn)}')
             continue
         for n in ast.walk(fn):
             if isinstance(n, ast.Attribute) and n.attr in NEXTLINE_WORDS:
                 raise SkelError(f'{SRC_MAIN}: Nextline.{name} touches `{n.attr}` (not modelled)')
+            if isinstance(n, ast.Attribute) and isinstance(n.ctx, (ast.Store, ast.Del)) and \
+                    n.attr in translated | set(NEXTLINE_PINNED):
+                raise SkelError(f'{SRC_MAIN}: Nextline.{name} rebinds `{n.attr}`')
+            if isinstance(n, ast.Call) and norm(n.func) in ('setattr', 'delattr', 'vars') or \
+                    (isinstance(n, ast.Attribute) and n.attr == '__dict__'):
+                raise SkelError(f'{SRC_MAIN}: Nextline.{name} uses setattr/delattr/vars/__dict__')
     return res
 
 
